@@ -72,51 +72,115 @@ def d1_kinds(chk, F):
     if g is None:
         chk.fail("anchor-missing", "into_simple_recipe", "", "anchor-missing: into_simple_recipe not found")
         return
-    # pushes of reference indices into step lists
+    # pushes of reference indices into step lists.  Variables are identified by their MIR local, not by their name: the rule is
+    # that the list an item index is pushed to IS the list the Step gets for that kind and the list the section's list is
+    # extended by — whatever the lists are called.
+    def root_local(ff, op):
+        """the local a receiver / source operand refers to (through &, &mut, deref(_mut), clone and plain copies)"""
+        p = op.get("move") or op.get("copy") if isinstance(op, dict) else None
+        cur = p["l"] if p is not None else None
+        for _ in range(12):
+            if cur is None:
+                return None
+            if ff.local_name(cur):
+                return cur
+            ds = ff.defs.get(cur, [])
+            if len(ds) != 1:
+                return cur
+            d0 = ds[0]
+            if d0[0] == "stmt":
+                rv = d0[3]["rv"]
+                if rv["k"] == "use":
+                    q = rv["op"].get("move") or rv["op"].get("copy")
+                    cur = q["l"] if q is not None else None
+                    continue
+                if rv["k"] in ("ref", "rawptr"):
+                    pl = rv["place"]
+                    flds = [x for x in pl["p"] if x.startswith(".")]
+                    if flds:
+                        # `&step.ingredient_refs` where `step` is a struct built (possibly in an inlined helper) from the lists
+                        bd = ff.defs.get(pl["l"], [])
+                        while len(bd) == 1 and bd[0][0] == "stmt" and bd[0][3]["rv"]["k"] == "use":
+                            q = bd[0][3]["rv"]["op"].get("move") or bd[0][3]["rv"]["op"].get("copy")
+                            if q is None or q["p"]:
+                                break
+                            bd = ff.defs.get(q["l"], [])
+                        if len(bd) == 1 and bd[0][0] == "stmt" and bd[0][3]["rv"].get("agg") == "adt" and flds[-1][1:] in bd[0][3]["rv"].get("fields", []):
+                            arv = bd[0][3]["rv"]
+                            q = arv["ops"][arv["fields"].index(flds[-1][1:])]
+                            q = q.get("move") or q.get("copy")
+                            cur = q["l"] if q is not None and not q["p"] else None
+                            continue
+                        return None
+                    cur = pl["l"]
+                    continue
+                return cur
+            if d0[0] == "call":
+                t_ = d0[2] if isinstance(d0[2], dict) else ff.blocks[d0[1]]["term"]
+                ck = callee_key(t_) or ""
+                if ck.endswith(("deref_mut", "deref", "Clone>::clone", "as_mut_slice", "as_slice", "mem::take")) and t_.get("args"):
+                    q = t_["args"][0].get("move") or t_["args"][0].get("copy")
+                    cur = q["l"] if q is not None else None
+                    continue
+                return cur
+            return cur
+        return cur
+    def nm(ff, l):
+        return ff.local_name(l) or f"_{l}"
+    step_list = {}
     n = 0
     for b, t in calls_to(g, "Vec::push"):
-        recv = _recv_var(g, t["args"][0]) or ""
         val = full(arg_expr(g, t, 1))
         m = re.search(r"as (IngredientRef|CookwareRef|TimerRef)\.index", val)
         if m:
             n += 1
             kind = {"IngredientRef": "ingredient", "CookwareRef": "cookware", "TimerRef": "timer"}[m.group(1)]
-            chk.expect(recv == f"step_{kind}_refs", "C19.D1-kinds", f"into_simple_recipe|push {m.group(1)}", g.where(b),
-                       f"the index of an {m.group(1)} is recorded in `{recv}` instead of step_{kind}_refs", sample=f"{m.group(1)}.index → step_{kind}_refs")
+            step_list.setdefault(kind, set()).add(root_local(g, t["args"][0]))
     chk.floor("C19.D1-kinds", "reference index pushes", n, 3, f"{g.file}:{g.line}")
+    ok_lists = all(len(step_list.get(k, ())) == 1 for _, _, k in KINDS) and len({next(iter(v)) for v in step_list.values()}) == 3
+    chk.expect(ok_lists, "C19.D1-kinds", "into_simple_recipe|one list per kind", f"{g.file}:{g.line}",
+               f"the indices of ingredient / cookware / timer items must go to three different lists, one per kind; found { {k: sorted(nm(g, x) for x in v if x is not None) for k, v in step_list.items()} }",
+               sample="item indices pushed to one list per kind")
+    if not ok_lists:
+        return
+    L = {k: next(iter(v)) for k, v in step_list.items()}
     for ff, i, s, d in aggregates(F, g.key, "model::Step"):
+        if ff is not g:
+            continue
         for _, _, kind in KINDS:
-            e = resolve(ff, d[f"{kind}_refs"])
-            src = None
-            for nn in walk(e):
-                pass
-            op = d[f"{kind}_refs"]
-            # Clone::clone(&step_<kind>_refs)
-            cl = [tt for bb, tt in calls_to(ff, "Clone>::clone") if tt["dest"]["l"] == (op.get("move") or op.get("copy") or {}).get("l")]
-            src = _recv_var(ff, cl[0]["args"][0]) if cl else _source_name(ff, (op.get("move") or op.get("copy"))["l"])
-            chk.expect(src == f"step_{kind}_refs", "C19.D1-kinds", f"Step.{kind}_refs", f"{ff.file}:{s.get('line')}",
-                       f"Step.{kind}_refs is taken from `{src}`", sample=f"Step.{kind}_refs ← step_{kind}_refs.clone()")
-    ext = calls_to(g, "Extend<T>>::extend")
+            src = root_local(ff, d[f"{kind}_refs"])
+            chk.expect(src == L[kind], "C19.D1-kinds", f"Step.{kind}_refs", f"{ff.file}:{s.get('line')}",
+                       f"Step.{kind}_refs is taken from `{nm(ff, src) if src is not None else '?'}`, not from the list the {kind} indices were pushed to (`{nm(g, L[kind])}`)",
+                       sample=f"Step.{kind}_refs ← the {kind} index list")
+    ext = calls_to(g, "Extend<T>>::extend") + calls_to(g, "Vec::<T, A>::extend_from_slice") + calls_to(g, "Vec::<T, A>::append")
     pairs = set()
     for b, t in ext:
-        recv = _recv_var(g, t["args"][0])
-        p = t["args"][1].get("move") or t["args"][1].get("copy")
-        src = _source_name(g, p["l"]) if p and not p["p"] else None
-        pairs.add((recv, src))
+        pairs.add((root_local(g, t["args"][0]), root_local(g, t["args"][1])))
+    S = {}
     for _, _, kind in KINDS:
-        chk.expect((f"{kind}_refs", f"step_{kind}_refs") in pairs, "C19.D1-kinds", f"section {kind}_refs extend", f"{g.file}:{g.line}",
-                   f"the section's {kind}_refs must be extended by the step's {kind} list; extends found: {sorted((a or '?', b or '?') for a, b in pairs)}",
-                   sample=f"{kind}_refs.extend(step_{kind}_refs)")
-    chk.expect(len(pairs) == 3, "C19.D1-kinds", "section extends", f"{g.file}:{g.line}", f"expected exactly three extend calls, found {sorted((a or '?', b or '?') for a, b in pairs)}",
-               sample="three extends, one per kind")
+        hit = [a for a, b_ in pairs if b_ == L[kind]]
+        chk.expect(len(hit) == 1, "C19.D1-kinds", f"section {kind}_refs extend", f"{g.file}:{g.line}",
+                   f"the section's {kind} list must be extended by the step's {kind} list exactly once; extends found: {sorted((nm(g, a) if a is not None else '?', nm(g, b_) if b_ is not None else '?') for a, b_ in pairs)}",
+                   sample=f"section {kind} list .extend(step {kind} list)")
+        if hit:
+            S[kind] = hit[0]
+    chk.expect(len(pairs) == 3 and len(set(S.values())) == len(S), "C19.D1-kinds", "section extends", f"{g.file}:{g.line}",
+               f"expected exactly three extend calls into three different section lists, found {len(pairs)}", sample="three extends, one per kind")
     for ff, i, s, d in aggregates(F, g.key, "model::Section"):
+        if ff is not g:
+            continue
         where = f"{ff.file}:{s.get('line')}"
         t = full(resolve(ff, d["title"]))
         chk.expect(t.endswith(".name)") and "sections" in t, "C19.D1-kinds", "Section.title", where, f"Section.title is {t[:80]}, not the core section name", sample="Section.title ← section.name")
-        for fld in ("blocks", "ingredient_refs", "cookware_refs", "timer_refs"):
-            p = d[fld].get("move") or d[fld].get("copy")
-            src = _source_name(ff, p["l"]) if p and not p["p"] else None
-            chk.expect(src == fld, "C19.D1-kinds", f"Section.{fld}", where, f"Section.{fld} is taken from `{src}`", sample=f"Section.{fld} ← {fld}")
+        for _, _, kind in KINDS:
+            src = root_local(ff, d[f"{kind}_refs"])
+            chk.expect(kind in S and src == S[kind], "C19.D1-kinds", f"Section.{kind}_refs", where,
+                       f"Section.{kind}_refs is taken from `{nm(ff, src) if src is not None else '?'}`, not from the list that collects the steps' {kind} lists",
+                       sample=f"Section.{kind}_refs ← the section's {kind} list")
+        src = root_local(ff, d["blocks"])
+        bl = [root_local(g, t_["args"][0]) for b_, t_ in calls_to(g, "Vec::push") if re.search(r"Block::(StepBlock|NoteBlock)", full(arg_expr(g, t_, 1)))]
+        chk.expect(bool(bl) and all(x == src for x in bl), "C19.D1-kinds", "Section.blocks", where,
+                   "Section.blocks is not the list the blocks were pushed to", sample="Section.blocks ← the block list")
     secpush = [(b, t) for b, t in calls_to(g, "Vec::push") if _recv_var(g, t["args"][0]) == "sections"]
     ok = len(secpush) == 1 and in_loop(g, secpush[0][0])
     chk.expect(ok, "C19.D1-kinds", "one Section per core section", f"{g.file}:{g.line}", "sections.push must happen exactly once per iteration over recipe.sections",
@@ -143,6 +207,40 @@ def d1_kinds(chk, F):
         chk.expect(not back, "C19.D1-kinds", "every core section|no skipped iteration", g.where(hb),
                    "an iteration of the section loop can return to the loop head without pushing a Section (`continue` / early skip)",
                    sample=f"{g.where(hb)}: every iteration passes sections.push")
+        # the section's lists start EMPTY in every iteration: each cycle through the loop head passes a fresh Vec (new /
+        # with_capacity / default / take) assigned to the list, or a clear() of it
+        def inits(l):
+            out = set()
+            for d0 in g.defs.get(l, []):
+                if d0[0] == "call":
+                    t_ = g.blocks[d0[1]]["term"]
+                    if (callee_key(t_) or "").endswith(("Vec::<T>::new", "Vec::<T>::with_capacity", "Default>::default", "mem::take")):
+                        out.add(t_.get("target", d0[1]))
+            for b_, t_ in g.calls():
+                if (callee_key(t_) or "").endswith(("Vec::<T, A>::clear", "Vec::<T, A>::truncate")) and t_.get("args") and root_local(g, t_["args"][0]) == l:
+                    out.add(b_)
+            return out
+        cheads = [b_ for b_, t_ in g.calls() if (callee_key(t_) or "").endswith(("Iterator>::next", "Iterator::next")) and ".content" in full(arg_expr(g, t_, 0))
+                  and ".items" not in full(arg_expr(g, t_, 0))]
+        if len(cheads) == 1:
+            ch = cheads[0]
+            for kind, l in sorted(L.items()):
+                I = inits(l)
+                uses = {b_ for b_, t_ in g.calls() if any(root_local(g, a) == l for a in t_.get("args", []) if isinstance(a, dict) and ("move" in a or "copy" in a))} - I
+                stale = set()
+                for s_ in g.succ[ch]:
+                    stale |= g.reach_from(s_, removed_nodes=I | {ch}) & uses
+                again = bool(stale)
+                chk.expect(bool(I) and bool(uses) and not again, "C19.D1-kinds", f"step {kind} list|fresh per block", g.where(ch),
+                           f"the list of a step's {kind} references (`{nm(g, l)}`) is not emptied / re-created for every block of the section: a step would also list "
+                           "the references of the steps before it", sample=f"{g.where(ch)}: `{nm(g, l)}` starts empty for every step")
+        for kind, l in sorted(S.items()):
+            I = inits(l)
+            again = any(hb in g.reach_from(s_, removed_nodes=I) for s_ in g.succ[hb]) if I else True
+            chk.expect(bool(I) and not again, "C19.D1-kinds", f"section {kind} list|fresh per section", g.where(hb),
+                       f"the list that collects a section's {kind} references (`{nm(g, l)}`) is not emptied / re-created in every iteration of the section loop: "
+                       "a section would also list the references of the sections before it",
+                       sample=f"{g.where(hb)}: `{nm(g, l)}` starts empty in every section")
     else:
         chk.fail("C19.D1-kinds", "every core section|loop head", f"{g.file}:{g.line}", f"expected one loop over recipe.sections in into_simple_recipe, found {len(heads)}")
     blocks = [(b, t) for b, t in calls_to(g, "Vec::push") if _recv_var(g, t["args"][0]) == "blocks"]
